@@ -86,8 +86,11 @@ func (w *W) Fail(kase any, f *Failure) {
 	raw, _ := json.Marshal(kase)
 	w.send(wmsg{T: "F", Case: raw, F: f})
 }
-func (w *W) Nontrivial()           { w.nontriv++ }
-func (w *W) Hist(k string)         { w.hist[k]++ }
+func (w *W) Nontrivial() { w.nontriv++ }
+
+// CountEval counts one more evaluation inside the current item.
+func (w *W) CountEval()              { w.evals++ }
+func (w *W) Hist(k string)           { w.hist[k]++ }
 func (w *W) HistN(k string, n int64) { w.hist[k] += n }
 func (w *W) Sample(v any) {
 	if len(w.samples) < 3 {
